@@ -22,11 +22,13 @@ ASSUMES = ["C15 well-formed pre-state", "C17 prefix algebra (relation oracle)", 
 LEVEL_TEXT = __doc__
 DEEPER = False     # thorough tier: more configurations and the mutant corpus, same unrolling (path count grows too fast)
 
+# function -> (stack walker type, its table field); the start list is decided by the certificate walk.  Wrappers around the
+# walker and its other fields (markers) are not part of the rule.
 CHILDREN = {
-    "PrefixMap::children": "Iter{{table: Some(&*{T}), nodes: [{k}]}}",
-    "PrefixMap::children_mut": "IterMut{{table: Some(&*{T}), nodes: [{k}], marker: PhantomData}}",
-    "PrefixMap::into_children": "IntoIter{{table: nodes<{T}>, nodes: [{k}]}}",
-    "PrefixSet::children": "Iter{{Iter{{table: Some(&*{T}), nodes: [{k}]}}}}",
+    "PrefixMap::children": ("Iter", "Some(&*{T})"),
+    "PrefixMap::children_mut": ("IterMut", "Some(&*{T})"),
+    "PrefixMap::into_children": ("IntoIter", "nodes<{T}>"),
+    "PrefixSet::children": ("Iter", "Some(&*{T})"),
 }
 
 
@@ -76,7 +78,11 @@ def run_config(ctx, rep, cfg, F):
             if root == "uncertified":
                 rep.bad("R10.1", short, "unjustified", "%s returns %s although %s (chain %s; inputs: %s)" % (short, got, W.why or W.start_rel, W.chain, ins), config=cfg)
                 continue
-            want = fmt.format(T=T, k=root if root else "")
+            from . import c03
+            st = c03.innermost(None, p.result[1])
+            want = "%s{table: %s, nodes: [%s]}" % (fmt[0], fmt[1].format(T=T), root if root else "")
+            if st is not None:
+                got = "%s{table: %s, nodes: %s}" % (st.adt.split("::")[-1], repr(st.fields["table"].value).replace("?", ""), repr(st.fields["nodes"].value).replace("?", ""))
             if got != want:
                 rep.bad("R10.1", short, "wrong start:" + ("none" if root is None else "node"),
                         "%s: the sub-tree covered by the selector is rooted at %s (chain %s, end %s), so the result must be %s; the function "
